@@ -3,7 +3,7 @@ import re
 from engine import rule, Inst, AnchorLost
 from ctx import short_ty
 from cond import Cond, dominating_edges
-from codecinfo import tx_types, emissions, len_fields, own_len_fields, field_types, property_newtypes, inner_type, self_fields
+from codecinfo import tx_types, emissions, len_fields, own_len_fields, field_types, property_newtypes, inner_type, self_fields, _trait_method_of as codecinfo_trait_method
 from mir import Body, callee_name, callee_resolved, strip_generics, symex, sym_fold, sym_leaves, sym_or_terms, _symex_rv, place_fields
 
 TX_SPEC_NAME = {"ConnectTx": "CONNECT", "AuthTx": "AUTH", "PublishTx": "PUBLISH", "SubscribeTx": "SUBSCRIBE", "UnsubscribeTx": "UNSUBSCRIBE",
@@ -239,7 +239,7 @@ def lm(ctx):
                     if x is None:
                         continue
                     for a in enc.atoms(x):
-                        if a[0] == "call" and a[1].startswith(info["adt"] + "::"):
+                        if a[0] == "call" and (a[1].startswith(info["adt"] + "::") or codecinfo_trait_method(a[1], info["adt"])):
                             hb = info["helpers"].get(a[1].split("::")[-1])
                             if hb is not None:
                                 found |= tests_in(hb, sorted(hb.reach), f)
@@ -304,6 +304,15 @@ def lm(ctx):
             if not m_ and (ftypes.get(f) in counted_ty):
                 m_ = {_norm_ty(ftypes[f])}
             if not e_ and f in packed:
+                continue
+            def _abstract(t_):
+                # a type the analysis cannot name at this site: a type parameter or an associated type of an inlined generic
+                # helper (`I::Item`), a trait object (`dyn ByteLen` in a table of sizes)
+                t_ = short_ty(t_ or "")
+                return bool(re.fullmatch(r"(Item|[A-Z]\w?|dyn \w+|ByteLen|Encode|\?)", t_)) or "dyn " in (t_ or "")
+            if any(_abstract(x) for x in m_ | e_):
+                out.append(Inst("LM", "%s:LM6:%s" % (name, f), True, site0, "field %s: NOT DECIDED, measured as %s / written as %s goes through a type the analysis cannot name here" % (f, sorted(short_ty(x) for x in m_), sorted(short_ty(x) for x in e_)),
+                                "the same values are measured and written", {"undecided": True}))
                 continue
             ok = m_ == e_
             out.append(Inst("LM", "%s:LM6:%s" % (name, f), ok, site0, "field %s: measured with byte_len as %s, written as %s" % (f, sorted(short_ty(x) for x in m_), sorted(short_ty(x) for x in e_)),
@@ -460,6 +469,68 @@ def _leaf_name(e, adt):
     return sorted(names | calls)
 
 
+def _dec_name(tt):
+    dec = short_ty(re.sub(r"<.*", "", tt["callee"].get("self_ty") or "?"))
+    if "AckRx" in (tt["callee"].get("self_ty") or ""):
+        m = re.search(r"(\w+)Reason>", tt["callee"]["self_ty"])
+        dec = (short_ty(m.group(1)) + "Rx") if m else dec
+    return dec
+
+
+def _dispatch_through_kind_enum(ctx, rb, types):
+    """The dispatch written as `let kind = Kind::from_header(b0)?; match kind { Kind::X => XRx::try_decode(..) }` with
+    `Kind::packet_id(self) -> u8 { match self { X => XRx::PACKET_ID, .. } }`: returns (shift, {type value: (decoder, site)},
+    site) by composing the two tables through the variants, or None."""
+    for i in sorted(rb.reach):
+        si = rb.switch_info(i)
+        if not si or si["kind"] != "discr" or not (si.get("adt") or "").startswith("codec::packet::") or (si.get("adt") or "").endswith("RxPacket"):
+            continue
+        kind_adt = si["adt"]
+        t = rb.term(i)
+        arm_dec = {}
+        for v, s_ in t["targets"]:
+            for j in sorted(rb.reachable_from(s_, avoid=[x for _, x in t["targets"] if x != s_] + ([t["otherwise"]] if t["otherwise"] is not None else []))):
+                tt = rb.term(j)
+                if tt["k"] == "call" and (tt["callee"] or {}).get("name") == "try_decode":
+                    arm_dec[si["variants"].get(v)] = (_dec_name(tt), rb.site(s_))
+                    break
+        # the variant -> constant table
+        var_const = {}
+        shift = None
+        for f in ctx.facts.fns:
+            if strip_generics(f.get("impl_self") or "") != kind_adt or f["kind"] != "fn":
+                continue
+            fb = ctx.world.body(f["path"])
+            if f.get("ret_ty") == "u8" and f["arg_count"] == 1:
+                for k in sorted(fb.reach):
+                    sk = fb.switch_info(k)
+                    if sk and sk["kind"] == "discr" and sk.get("adt") == kind_adt:
+                        tk = fb.term(k)
+                        for v, s_ in tk["targets"]:
+                            for x in sorted(fb.reachable_from(s_, avoid=[y for _, y in tk["targets"] if y != s_])):
+                                for st in fb.blocks[x]["stmts"]:
+                                    if st["k"] == "assign" and st["lhs"]["l"] == 0 and st["rv"]["k"] == "use" and st["rv"]["op"].get("uneval"):
+                                        u = st["rv"]["op"]["uneval"]
+                                        if u["name"] == "PACKET_ID" and isinstance(u.get("eval"), int):
+                                            var_const[sk["variants"].get(v)] = u["eval"]
+            else:
+                for k, tk in fb.calls(r"Iterator::(find|position)$"):
+                    e = symex(fb, {"l": 0, "p": []})
+                    for a in fb.atoms(tk["ops"][1]):
+                        if a[0] == "closure":
+                            cb = ctx.world.body(a[1])
+                            ce = symex(cb, {"l": 0, "p": []})
+                            if ce[0] == "bin" and ce[1] == "Eq":
+                                # the captured operand: where it comes from in the enclosing function
+                                for st_i in sorted(fb.reach):
+                                    for st in fb.blocks[st_i]["stmts"]:
+                                        if st["k"] == "assign" and st["rv"]["k"] == "bin" and st["rv"]["op"] == "Shr":
+                                            shift = fb.fold(st["rv"]["b"])
+        if arm_dec and var_const and set(arm_dec) == set(var_const) and shift is not None:
+            return shift, {var_const[v]: arm_dec[v] for v in arm_dec}, rb.site(i)
+    return None
+
+
 @rule("BITS", floor=14)
 def bits(ctx):
     """Bit layouts: connect flags, PUBLISH fixed header, subscription options (writer side) and the
@@ -532,7 +603,17 @@ def bits(ctx):
                         ok = dec is not None and dec.upper().replace("RX", "") == wantt
                         out.append(Inst("BITS", "type-nibble:%s:%d" % (what, v), ok, rb.site(s_), "type %d is decoded by %s" % (v, dec), wantt))
         if not found:
-            raise AnchorLost("switch on byte0 >> 4 in RxPacket::try_decode")
+            got = _dispatch_through_kind_enum(ctx, rb, types)
+            if got is None:
+                out.append(Inst("BITS", "type-nibble:%s" % what, True, rb.site(0), "NOT DECIDED: the dispatch on the packet type is written in a way this rule does not read (no switch on byte0 >> 4, no classification enum)",
+                                "byte0 >> 4 selects the decoder", {"undecided": True}))
+            else:
+                shift, table, site_ = got
+                out.append(Inst("BITS", "type-nibble:%s" % what, shift == 4, site_, "packet type = byte0 >> %s, classified through a private enum" % shift, "byte0 >> 4"))
+                for v, (dec, s_) in sorted(table.items()):
+                    wantt = {vv: k for k, vv in types.items()}.get(v, "?")
+                    ok = dec is not None and dec.upper().replace("RX", "") == wantt
+                    out.append(Inst("BITS", "type-nibble:%s:%d" % (what, v), ok, s_, "type %d is decoded by %s" % (v, dec), wantt))
     return out
 
 
@@ -643,6 +724,11 @@ def ids(ctx):
             tt = pd.term(j)
             if tt["k"] == "call" and (callee_name(tt) or "").endswith("Decoder::try_decode") and dec is None:
                 dec = (tt["callee"].get("args") or ["?"])[-1]
+            # the variant is built in the arm itself (`Property::X(X(decoder.try_decode()?))`) ...
+            for st_ in pd.blocks[j]["stmts"]:
+                if st_["k"] == "assign" and st_["rv"]["k"] == "agg" and (st_["rv"].get("adt") or "").endswith("properties::Property") and var is None:
+                    var = st_["rv"]["variant"]
+            # ... or in the closure handed to `map`
             if tt["k"] == "call":
                 for a in pd.atoms(tt["ops"][1]) if len(tt["ops"]) > 1 else ():
                     if a[0] == "closure":
